@@ -80,6 +80,31 @@ def gen_fan(rnd, *, max_items=8, allow_fail=True, allow_exhaust=True, hitl=False
     return spec
 
 
+def gen_selfwait(rnd):
+    """the waiting step itself ACCEPTS the type it waits for (a chat / pairing step: `pair(ev: EvD | Answer)` doing
+    `wait_for_event(Answer, requirements=...)`): an Answer that resolves one of its waits is that wait's result and no new input for
+    the step; an Answer of the same type that resolves nothing (other key) is an ordinary input for it; answers are sent to the run
+    or addressed to the step."""
+    n = rnd.randint(1, 3)
+    items = [{"lat": [rnd.choice([0, 0, 1])]} for _ in range(n)]
+    wait = {"k": "wait", "type": "Answer", "req": {"key": "{v}"}, "wid": "w-{uid}", "ask": "Ask"}
+    steps = [
+        {"name": "start", "in": ["Go"], "nw": 1, "acts": [{"k": "send", "type": "EvD", "items": items, "gap": rnd.choice([None, 1])}, {"k": "ret", "type": None}], "declare": ["EvD"]},
+        {"name": "ask", "in": ["EvD", "Answer"], "nw": rnd.randint(1, 3),
+         "acts": [{"k": "only", "types": ["EvD"]}, {"k": "sleep", "d": {"from": "lat"}}, wait, {"k": "ret", "type": "EvC"}]},
+        {"name": "join", "in": ["EvC"], "nw": 1, "acts": [{"k": "collect", "types": ["EvC"] * n}, {"k": "ret", "type": "StopEvent", "result": "collected"}]},
+    ]
+    target = rnd.choice([None, None, "ask"])
+    replies = []
+    if rnd.random() < 0.6:
+        replies.append({"delay": rnd.choice([0, 0.5]), "type": "Answer", "pay": {"key": "someone-else"}, "target": rnd.choice([None, target])})
+    replies.append({"delay": rnd.choice([0.5, 1]), "type": "Answer", "pay": {"key": "{v}"}, "target": target})
+    if rnd.random() < 0.3:
+        replies.append({"delay": rnd.choice([0, 1]), "type": "Answer", "pay": {"key": "{v}"}, "target": target})   # a duplicate: nothing waits for it any more
+    return {"family": "selfwait", "steps": steps, "timeout": None, "responders": [{"on": "Ask", "replies": replies}], "externals": [],
+            "meta": {"n": n, "style": "selfwait", "timeout": None, "req": True, "may_wait_forever": False, "targeted": target is not None}}
+
+
 def gen_wait2(rnd):
     """wait family whose waiting step goes on after its first wait: it catches the TimeoutError and asks a fallback question (a
     second wait_for_event in the same invocation), or lets the TimeoutError escape into a retry policy.  wait_for_event is
